@@ -7,6 +7,8 @@ CONSTANTS
   MaxEmit = 0
   MaxSreq = 0
   MaxSa = 2
+  MaxBc = 0
+  DupOf <- NoDup
   Gates = TRUE
 VIEW MCView
 CHECK_DEADLOCK FALSE
